@@ -106,6 +106,75 @@ def eval_view(view, envs, results):
     return viol, stats
 
 
+def checks_field(det, c):
+    """independent transcription of the nine detectors' predicates on a parsed context"""
+    if det == 'rekey-to': return not c['RekeyTo']['any']
+    if det == 'can-close-account': return not (c['CloseRemainderTo']['any'] and 16 in c['types'])
+    if det == 'can-close-asset': return not (c['AssetCloseTo']['any'] and 64 in c['types'])
+    if det == 'missing-fee-check': return c['fee'] is None or c['fee'] <= 272000
+    if det == 'is-updatable': return 100 not in c['types']
+    if det == 'is-deletable': return 101 not in c['types']
+    if det == 'unprotected-updatable': return not (100 in c['types'] and c['Sender']['any'])
+    if det == 'unprotected-deletable': return not (101 in c['types'] and c['Sender']['any'])
+    if det == 'group-size-check': return False if not c['sizes'] and not c['indices'] and c is not None and c.get('_tail') else 16 not in c['sizes']
+    return False
+
+
+def validated(view, det, key):
+    c = view.context(key)
+    if checks_field(det, c): return True
+    for i in c['indices']:
+        ci = dict(view.context(key, 'at', i)); ci['_tail'] = True
+        if det == 'group-size-check':
+            return False
+        if not checks_field(det, ci): return False
+    return True
+
+
+def path_violations(view):
+    """C02: every reported path is a matched walk from the entry to a leaf, no block twice per activation, no
+    validated block, no path twice"""
+    viol = {}
+    fb = view.fblocks
+    entry_of = {name: d['entry'][0] for name, d in view.fsubs.items() if d.get('entry')}
+    for det, ps in view.paths.items():
+        if ps is None: continue
+        if len(set(ps)) != len(ps):
+            viol[('C02', det, 'duplicate', 0)] = f"a path is reported twice: {ps}"
+        for p in ps:
+            idxs = [int(x) for x in p.split('-')]
+            keys = [view.idx_key.get(i) for i in idxs]
+            if None in keys:
+                viol[('C02', det, p, 0)] = "path names a block that is not in the function"; continue
+            if keys[0] != view.fentry:
+                viol[('C02', det, p, 0)] = "path does not start at the entry block"
+            if not fb[keys[-1]]['leaf']:
+                viol[('C02', det, p, 0)] = "path does not end in a block where execution can terminate"
+            stack, exe = [], [[]]
+            for a, b in zip(keys, keys[1:] + [None]):
+                A = fb[a]
+                if a in exe[-1]:
+                    viol[('C02', det, p, 0)] = f"block {A['idx']} revisited within one activation"; break
+                exe[-1].append(a)
+                if validated(view, det, a):
+                    viol[('C02', det, p, 0)] = f"block {A['idx']} excludes the dangerous value but is on a reported path"; break
+                if b is None: break
+                ex = A['exit']
+                if ex.startswith('callsub:'):
+                    ok = entry_of.get(ex[8:]) == b
+                    stack.append(A['next'][0] if A['next'] else None); exe.append([])
+                elif ex == 'retsub':
+                    ok = bool(stack) and stack.pop() == b
+                    if len(exe) > 1: exe.pop()
+                else:
+                    ok = b in A['next']
+                if not ok:
+                    viol[('C02', det, p, 0)] = f"step {A['idx']} -> {fb[b]['idx']} is not an edge of the global graph / not the matching return point"; break
+            else:
+                pass
+    return viol
+
+
 def walk_violations(view, envs, results):
     """C04: the block trace of every execution is a matched walk of the tool's global graph"""
     viol = {}
@@ -214,12 +283,14 @@ def process(item):
             if iv.analysed:
                 vi, s1 = eval_view(iv, envs, rr)
                 vi.update(walk_violations(iv, envs, rr))
+                vi.update(path_violations(iv))
                 res['stats'].update(s1)
             else:
                 vi = {}
             if d and mv.analysed:
                 vm, _ = eval_view(mv, envs, rr)
                 vm.update(walk_violations(mv, envs, rr))
+                vm.update(path_violations(mv))
             else:
                 vm = vi if not d else {}
             def pack(v, other):
